@@ -419,6 +419,543 @@ example :
     (s1.conts.map (·.fields)) = [[(0, 0), (2, 0)], [(0, 0)], [(0, 1), (2, 2)]] ∧
     (s2.conts.map (·.fields)) = [[(0, 3), (2, 4)], [(0, 0)], [(0, 1), (2, 2)]] := by decide
 
+
+/-! ### refinement when locations are shared (rebinding operations) -/
+
+namespace C16
+/-- (restated with explicit argument for use below) -/
+theorem spec_wf_step' {ts : List Table} (hwf : ∀ t ∈ ts, WF t) (op : Op) : ∀ t ∈ (stepT ts op).1, WF t :=
+  c16_spec_wf_step hwf op
+end C16
+
+namespace StoreP
+
+/-- representation of a table by a container when locations may be shared: `Rep` without the distinctness of the
+locations -/
+structure RepS (h : List Col) (c : Cont) (t : Table) : Prop where
+  cols : c.fields.map (fun p => (p.1, h[p.2]?)) = t.cols.map (fun p => (p.1, some p.2))
+  names : c.names = t.keys
+  len : c.len = t.len
+  idx : c.idx = none ∨ c.idx = some (List.range c.len)
+
+theorem RepS.keys {h c t} (r : RepS h c t) : c.fields.map (·.1) = t.keys := by
+  have := congrArg (List.map (·.1)) r.cols
+  simpa [Table.keys, List.map_map, Function.comp_def] using this
+
+theorem RepS.forall₂ {h c t} (r : RepS h c t) :
+    List.Forall₂ (fun (a : Name × Loc) (b : Name × Col) => a.1 = b.1 ∧ h[a.2]? = some b.2) c.fields t.cols := by
+  have h1 : List.Forall₂ (· = ·) (c.fields.map (fun p => (p.1, h[p.2]?))) (t.cols.map (fun p => (p.1, some p.2))) := by
+    rw [List.forall₂_eq_eq_eq]; exact r.cols
+  rw [List.forall₂_map_left_iff, List.forall₂_map_right_iff] at h1
+  exact h1.imp (fun a b hab => by simpa [Prod.ext_iff] using hab)
+
+theorem RepS.col_of_field {h c t} (r : RepS h c t) {o : Name} {l : Loc} (hm : (o, l) ∈ c.fields) :
+    ∃ col, h[l]? = some col ∧ (o, col) ∈ t.cols := by
+  have : (o, h[l]?) ∈ c.fields.map (fun p => (p.1, h[p.2]?)) := List.mem_map.mpr ⟨(o, l), hm, rfl⟩
+  rw [r.cols] at this
+  obtain ⟨p, hp, he⟩ := List.mem_map.mp this
+  simp only [Prod.mk.injEq] at he
+  exact ⟨p.2, he.2.symm, by rw [← he.1]; exact hp⟩
+
+theorem RepS.field_of_col {h c t} (r : RepS h c t) {o : Name} {col : Col} (hm : (o, col) ∈ t.cols) :
+    ∃ l, (o, l) ∈ c.fields ∧ h[l]? = some col := by
+  have : (o, some col) ∈ t.cols.map (fun p => (p.1, some p.2)) := List.mem_map.mpr ⟨(o, col), hm, rfl⟩
+  rw [← r.cols] at this
+  obtain ⟨p, hp, he⟩ := List.mem_map.mp this
+  simp only [Prod.mk.injEq] at he
+  exact ⟨p.2, by rw [← he.1]; exact hp, he.2⟩
+
+/-- reading a consistent container through its caches yields exactly the table it represents -/
+theorem view_of_repS {h c t} (r : RepS h c t) (wf : WF t) : viewCont h c = .ok t := by
+  have hk : (c.fields.map (·.1)).Nodup := by rw [r.keys]; exact wf.1
+  have hz := List.forall₂_iff_zip.mp r.forall₂
+  have h2 : List.Forall₂ (fun (n : Name) (b : Name × Col) => readField h c.fields n = Except.ok b) c.names t.cols := by
+    rw [r.names, ← r.keys, List.forall₂_map_left_iff]
+    refine List.forall₂_iff_zip.mpr ⟨hz.1, ?_⟩
+    intro a b hab
+    obtain ⟨h1, h2⟩ := hz.2 hab
+    have ha : a ∈ c.fields := (List.of_mem_zip hab).1
+    have hl : c.fields.lookup a.1 = some a.2 := lookup_of_mem _ _ _ hk ha
+    simp only [readField, hl, h2]
+    rw [h1]
+  unfold viewCont
+  rw [mapE_ok_of_forall₂ _ _ _ h2]
+  simp only [r.len]
+
+
+/-- the simulation relation when slots may share locations: every container represents its table; nothing is said
+about which locations are distinct -/
+structure GoodS (s : St) (ts : List Table) : Prop where
+  len : s.conts.length = ts.length
+  rep : ∀ (i : Nat) (c : Cont) (t : Table), s.conts[i]? = some c → ts[i]? = some t → RepS s.heap c t
+  wf : ∀ t ∈ ts, WF t
+
+theorem Good.toGoodS {s : St} {ts : List Table} (g : Good s ts) : GoodS s ts :=
+  ⟨g.len, fun i c t hc ht => let r := g.rep i c t hc ht; ⟨r.cols, r.names, r.len, r.idx⟩, g.wf⟩
+
+theorem view_eqS {s : St} {ts : List Table} (g : GoodS s ts) : viewAt s = getT ts := by
+  funext i
+  unfold viewAt getT
+  cases hc : s.conts[i]? with
+  | none =>
+    have : ts[i]? = none := by
+      rw [List.getElem?_eq_none_iff] at hc ⊢; rw [← g.len]; exact hc
+    simp [this]
+  | some c =>
+    have hi : i < ts.length := by
+      rw [← g.len]; exact (List.getElem?_eq_some_iff.mp hc).1
+    have ht : ts[i]? = some ts[i] := List.getElem?_eq_getElem hi
+    simp only [ht]
+    exact view_of_repS (g.rep i c _ hc ht) (g.wf _ (List.getElem_mem hi))
+
+theorem repS_frame {h h' : List Col} {c : Cont} {t : Table} (r : RepS h c t)
+    (hfr : ∀ n l, (n, l) ∈ c.fields → h'[l]? = h[l]?) : RepS h' c t := by
+  refine ⟨?_, r.names, r.len, r.idx⟩
+  rw [← r.cols]
+  apply List.map_congr_left
+  intro p hp
+  rw [hfr p.1 p.2 hp]
+
+theorem valid_of_repS {h : List Col} {c : Cont} {t : Table} (r : RepS h c t) {n l} (hm : (n, l) ∈ c.fields) :
+    l < h.length := by
+  obtain ⟨col, hcol, _⟩ := r.col_of_field hm
+  exact (List.getElem?_eq_some_iff.mp hcol).1
+
+/-- binding result columns none of which is written in place: needs no distinctness of locations -/
+theorem place_spec_rebind (old : List (Name × Loc)) (hk : (old.map (·.1)).Nodup) :
+    ∀ (pc : PCols) (h : List Col),
+      (∀ p ∈ old, p.2 < h.length) → (∀ e ∈ pc, wrefOf e.2.1 = none) → (∀ e ∈ pc, EntryOK old h e) →
+      ∃ h' fs, place old h pc = .ok (h', fs) ∧ (∀ l, l < h.length → h'[l]? = h[l]?) ∧
+        fs.map (fun p => (p.1, h'[p.2]?)) = pc.map (fun e => (e.1, some e.2.2)) := by
+  intro pc
+  induction pc with
+  | nil => intro h _ _ _; exact ⟨h, [], rfl, fun _ _ => rfl, rfl⟩
+  | cons e r ih =>
+    intro h hv hw he
+    obtain ⟨n, prov, col⟩ := e
+    have hwr : ∀ e' ∈ r, wrefOf e'.2.1 = none := fun e' h' => hw e' (List.mem_cons_of_mem _ h')
+    have her : ∀ e' ∈ r, EntryOK old h e' := fun e' h' => he e' (List.mem_cons_of_mem _ h')
+    cases prov with
+    | fresh =>
+      have hv1 : ∀ p ∈ old, p.2 < (h ++ [col]).length := fun p hp => by
+        rw [List.length_append]; exact Nat.lt_add_right _ (hv p hp)
+      have he1 : ∀ e' ∈ r, EntryOK old (h ++ [col]) e' := by
+        intro e' h'
+        have h0 := her e' h'
+        unfold EntryOK at h0 ⊢
+        split
+        · trivial
+        · rename_i o' hpe
+          rw [hpe] at h0
+          obtain ⟨l', hl1, hl2⟩ := h0
+          refine ⟨l', hl1, ?_⟩
+          have hlt : l' < h.length := hv _ hl1
+          rw [List.getElem?_append_left hlt]; exact hl2
+        · rename_i o' hpe
+          rw [hpe] at h0
+          exact h0
+      obtain ⟨h', fs, hp, hfr, habs⟩ := ih (h ++ [col]) hv1 hwr he1
+      refine ⟨h', (n, h.length) :: fs, by simp [place, hp], ?_, ?_⟩
+      · intro l hl
+        rw [hfr l (by simp; omega), List.getElem?_append_left hl]
+      · have hnew : h'[h.length]? = some col := by
+          rw [hfr h.length (by simp)]; simp
+        simp [habs, hnew]
+    | kept o =>
+      obtain ⟨l, hol, hcol⟩ : ∃ l, (o, l) ∈ old ∧ h[l]? = some col := by
+        have := he (n, .kept o, col) (List.mem_cons_self); simpa [EntryOK] using this
+      have hlk : old.lookup o = some l := lookup_of_mem _ _ _ hk hol
+      obtain ⟨h', fs, hp, hfr, habs⟩ := ih h hv hwr her
+      refine ⟨h', (n, l) :: fs, by simp [place, hlk, hp], hfr, ?_⟩
+      have : h'[l]? = some col := by rw [hfr l (hv _ hol)]; exact hcol
+      simp [habs, this]
+    | written o =>
+      have := hw (n, .written o, col) List.mem_cons_self
+      simp [wrefOf] at this
+
+
+/-- one rebinding operation of the heap layer, locations possibly shared: the plain tables are still simulated -/
+theorem step_refines_rebind {s : St} {ts : List Table} (g : GoodS s ts) (op : Op) (hns : ¬ IsSetSel op) :
+    GoodS (stepH s op).1 (stepT ts op).1 ∧ (stepH s op).2 = (stepT ts op).2 := by
+  unfold stepH stepT
+  rw [view_eqS g, g.len]
+  cases hr : tableOp (getT ts) ts.length op with
+  | error e => exact ⟨g, rfl⟩
+  | ok r =>
+    obtain ⟨tgt, u, out⟩ := r
+    have ok := tableOp_ok ts g.wf op tgt u out hr
+    have hnw : ∀ e ∈ u.cols, wrefOf e.2.1 = none := by
+      have := tableOp_wrefs _ _ _ _ _ _ hr hns
+      unfold wrefs at this
+      rw [List.filterMap_eq_nil_iff] at this
+      exact this
+    cases tgt with
+    | inplace c =>
+      obtain ⟨wfu, t, htc, hprov, hnames, hlen⟩ := ok
+      have hc : c < s.conts.length := by rw [g.len]; exact (List.getElem?_eq_some_iff.mp htc).1
+      have hcc : s.conts[c]? = some s.conts[c] := List.getElem?_eq_getElem hc
+      generalize s.conts[c] = cont at hcc
+      have r := g.rep c cont t hcc htc
+      have hk : (cont.fields.map (·.1)).Nodup := by rw [r.keys]; exact (g.wf t (List.mem_of_getElem? htc)).1
+      obtain ⟨h', fs, hp, hfr, habs⟩ := place_spec_rebind cont.fields hk u.cols s.heap
+        (fun p hp => valid_of_repS r (n := p.1) hp) hnw (by
+          intro e he
+          have := hprov.2 e he
+          unfold EntryOK
+          split
+          · trivial
+          · rename_i o hpe
+            rw [hpe] at this
+            obtain ⟨l, hl1, hl2⟩ := r.field_of_col this
+            exact ⟨l, hl1, hl2⟩
+          · rename_i o hpe
+            have := hnw e he
+            rw [hpe] at this
+            simp [wrefOf] at this)
+      simp only [hcc, hp]
+      have hfskeys : fs.map (·.1) = u.cols.map (·.1) := by
+        have := congrArg (List.map (·.1)) habs
+        simpa [List.map_map, Function.comp_def] using this
+      refine ⟨⟨by simp [g.len], ?_, ?_⟩, ?_⟩
+      · intro i ci ti hci hti
+        by_cases hic : i = c
+        · subst hic
+          simp only [List.getElem?_set_self hc, Option.some.injEq] at hci
+          have hc' : i < ts.length := by rw [← g.len]; exact hc
+          simp only [List.getElem?_set_self hc', Option.some.injEq] at hti
+          subst hci hti
+          refine ⟨?_, ?_, rfl, ?_⟩
+          · simp only [Upd.table, List.map_map, Function.comp_def]; exact habs
+          · simp only [Upd.table, Table.keys, List.map_map, Function.comp_def]
+            rw [r.names]; exact hnames fs hfskeys
+          · exact idxUpd_ok cont.idx cont.len u.len op r.idx (fun h => by rw [hlen h, ← r.len])
+        · rw [List.getElem?_set_ne (Ne.symm hic)] at hci hti
+          have ri := g.rep i ci ti hci hti
+          exact repS_frame ri (fun n l hm => hfr l (valid_of_repS ri hm))
+      · intro t' ht'
+        rcases List.mem_or_eq_of_mem_set ht' with h1 | h1
+        · exact g.wf t' h1
+        · rw [h1]; exact wfu
+      · cases op <;> try rfl
+        rename_i c'
+        simp only [tableOp, bind_ok] at hr
+        obtain ⟨t', ht', hr⟩ := hr
+        simp only [pure_eq, Except.ok.injEq, Prod.mk.injEq, Target.inplace.injEq] at hr
+        obtain ⟨rfl, rfl, rfl⟩ := hr
+        have : t' = t := by
+          have := getT_ok ht'; rw [htc] at this; exact (Option.some.inj this).symm
+        subst this
+        rcases r.idx with h0 | h0 <;> simp only [h0]
+        rw [r.len]
+    | new =>
+      obtain ⟨wfu, hrefs⟩ := ok
+      obtain ⟨h', fs, hp, hfr, habs⟩ := place_spec_rebind [] (by simp) u.cols s.heap (by simp) hnw (by
+          intro e he
+          unfold EntryOK
+          have : refOf e.2.1 = none := by
+            by_contra hne
+            obtain ⟨o, ho⟩ := Option.ne_none_iff_exists'.mp hne
+            have : o ∈ refs u.cols := List.mem_filterMap.mpr ⟨e, he, ho⟩
+            rw [hrefs] at this; cases this
+          split
+          · trivial
+          · rename_i o hpe; rw [hpe] at this; simp [refOf] at this
+          · rename_i o hpe; rw [hpe] at this; simp [refOf] at this)
+      simp only [hp]
+      have hfskeys : fs.map (·.1) = u.cols.map (·.1) := by
+        have := congrArg (List.map (·.1)) habs
+        simpa [List.map_map, Function.comp_def] using this
+      refine ⟨⟨by simp [g.len], ?_, ?_⟩, trivial⟩
+      · intro i ci ti hci hti
+        by_cases hi : i < s.conts.length
+        · rw [List.getElem?_append_left hi] at hci
+          rw [List.getElem?_append_left (by rw [← g.len]; exact hi)] at hti
+          have ri := g.rep i ci ti hci hti
+          exact repS_frame ri (fun n l hm => hfr l (valid_of_repS ri hm))
+        · have hi' : i = s.conts.length := by
+            have := (List.getElem?_eq_some_iff.mp hci).1
+            simp at this; omega
+          subst hi'
+          simp only [List.getElem?_concat_length, Option.some.injEq] at hci
+          rw [g.len, List.getElem?_concat_length, Option.some.injEq] at hti
+          subst hci hti
+          refine ⟨?_, ?_, rfl, Or.inl rfl⟩
+          · simp only [Upd.table, List.map_map, Function.comp_def]; exact habs
+          · simp only [Upd.table, Table.keys, List.map_map, Function.comp_def]; exact hfskeys
+      · intro t' ht'
+        rcases List.mem_append.mp ht' with h1 | h1
+        · exact g.wf t' h1
+        · simp at h1; rw [h1]; exact wfu
+
+
+/-! #### handing in an array that already is a column -/
+
+theorem RepS.lookup {h : List Col} {c : Cont} {t : Table} (r : RepS h c t) (n : Name) :
+    (c.fields.lookup n).bind (fun l => h[l]?) = t.cols.lookup n := C16.lookup_of_forall₂ r.forall₂ n
+
+/-- `d[m]`: KeyError exactly when the table has no such column; otherwise the location holds that column -/
+theorem RepS.lookup_cases {h : List Col} {c : Cont} {t : Table} (r : RepS h c t) (m : Name) :
+    (c.fields.lookup m = none ∧ t.cols.lookup m = none) ∨
+    ∃ l col, c.fields.lookup m = some l ∧ h[l]? = some col ∧ t.cols.lookup m = some col := by
+  have h1 := r.lookup m
+  cases hl : c.fields.lookup m with
+  | none => left; rw [hl] at h1; exact ⟨rfl, h1.symm⟩
+  | some l =>
+    right
+    obtain ⟨col, hcol, _⟩ := r.col_of_field (mem_of_lookup _ _ _ hl)
+    rw [hl] at h1
+    simp only [Option.bind_some, hcol] at h1
+    exact ⟨l, col, rfl, hcol, h1.symm⟩
+
+theorem dhas_fields {h : List Col} {c : Cont} {t : Table} (r : RepS h c t) (n : Name) :
+    dhas c.fields n = dhas t.cols n := by
+  have h1 := dhas_iff c.fields n
+  have h2 := dhas_iff t.cols n
+  rw [r.keys] at h1
+  have : (dhas c.fields n = true) ↔ (dhas t.cols n = true) := h1.trans h2.symm
+  cases ha : dhas c.fields n <;> cases hb : dhas t.cols n <;> simp_all
+
+theorem getElem_pair {s : St} {ts : List Table} (g : GoodS s ts) {c : Nat} {cont : Cont} (hc : s.conts[c]? = some cont) :
+    ∃ t, ts[c]? = some t ∧ RepS s.heap cont t := by
+  have hi : c < ts.length := by rw [← g.len]; exact (List.getElem?_eq_some_iff.mp hc).1
+  exact ⟨ts[c], List.getElem?_eq_getElem hi, g.rep c cont _ hc (List.getElem?_eq_getElem hi)⟩
+
+theorem getElem_none {s : St} {ts : List Table} (g : GoodS s ts) {c : Nat} (hc : s.conts[c]? = none) : ts[c]? = none := by
+  rw [List.getElem?_eq_none_iff] at hc ⊢; rw [← g.len]; exact hc
+
+theorem stepT_appendField {ts : List Table} {c : Nat} {t : Table} (htc : ts[c]? = some t) (n : Name) (col : Col) :
+    stepT ts (.appendField c n col) =
+      if dhas t.cols n = true then (ts, .error .key)
+      else if col.vals.length ≠ t.len then (ts, .error .value)
+      else (ts.set c ⟨t.len, t.cols ++ [(n, col)]⟩, .ok .unit) := by
+  have hg : getT ts c = .ok t := by simp [getT, htc]
+  unfold stepT
+  simp only [tableOp, hg, bind, Except.bind]
+  split_ifs <;> simp [throw_eq, pure_eq, Upd.table, keepAll_table]
+
+theorem bindNew_eq (s : St) (c : Nat) (cont : Cont) (n : Name) {l : Loc} {col : Col} (hl : s.heap[l]? = some col) :
+    bindNew s c cont n l =
+      if dhas cont.fields n = true then (s, .error .key)
+      else if col.vals.length ≠ cont.len then (s, .error .value)
+      else (⟨s.heap, s.conts.set c { cont with fields := cont.fields ++ [(n, l)], names := cont.names ++ [n] }⟩, .ok .unit) := by
+  unfold bindNew
+  simp only [hl]
+
+/-- `append_field(n, arr)` with `arr` the array at location `l` -/
+theorem bindNew_refines {s : St} {ts : List Table} (g : GoodS s ts) {c : Nat} {cont : Cont} {t : Table}
+    (hcc : s.conts[c]? = some cont) (htc : ts[c]? = some t) (n : Name) {l : Loc} {col : Col} (hl : s.heap[l]? = some col) :
+    GoodS (bindNew s c cont n l).1 (stepT ts (.appendField c n col)).1 ∧
+    (bindNew s c cont n l).2 = (stepT ts (.appendField c n col)).2 := by
+  have r := g.rep c cont t hcc htc
+  have hwf := C16.spec_wf_step' g.wf (.appendField c n col)
+  have hc : c < s.conts.length := (List.getElem?_eq_some_iff.mp hcc).1
+  have hc' : c < ts.length := (List.getElem?_eq_some_iff.mp htc).1
+  rw [stepT_appendField htc] at hwf ⊢
+  rw [bindNew_eq s c cont n hl, dhas_fields r n, r.len]
+  cases h1 : dhas t.cols n with
+  | true =>
+    simp only [↓reduceIte]
+    exact ⟨g, trivial⟩
+  | false =>
+    rw [h1] at hwf
+    by_cases h2 : col.vals.length = t.len
+    · simp only [Bool.false_eq_true, ↓reduceIte, h2, ne_eq, not_true_eq_false] at hwf ⊢
+      refine ⟨⟨by simp [g.len], ?_, hwf⟩, trivial⟩
+      intro i ci ti hci hti
+      by_cases hic : i = c
+      · subst hic
+        simp only [List.getElem?_set_self hc, Option.some.injEq] at hci
+        simp only [List.getElem?_set_self hc', Option.some.injEq] at hti
+        subst hci hti
+        refine ⟨?_, ?_, rfl, by simp only; rw [← r.len]; exact r.idx⟩
+        · simp only [List.map_append, r.cols, List.map_cons, List.map_nil, hl]
+        · simp only [Table.keys, List.map_append, List.map_cons, List.map_nil]
+          rw [r.names]; rfl
+      · rw [List.getElem?_set_ne (Ne.symm hic)] at hci hti
+        exact g.rep i ci ti hci hti
+    · simp only [Bool.false_eq_true, ↓reduceIte, ne_eq, h2, not_false_eq_true]
+      exact ⟨g, trivial⟩
+
+
+theorem stepT_setItem {ts : List Table} {c : Nat} {t : Table} (htc : ts[c]? = some t) (n : Name) (col : Col) :
+    stepT ts (.setItem c n col) =
+      if dhas t.cols n = true then
+        (if col.vals.length ≠ t.len then (ts, .error .value)
+         else (ts.set c ⟨t.len, (t.cols.map (setItemCol n col)).map fun e => (e.1, e.2.2)⟩, .ok .unit))
+      else stepT ts (.appendField c n col) := by
+  rw [stepT_appendField htc]
+  have hg : getT ts c = .ok t := by simp [getT, htc]
+  unfold stepT
+  simp only [tableOp, hg, bind, Except.bind]
+  split_ifs <;> simp [throw_eq, pure_eq, Upd.table, keepAll_table]
+
+theorem setItemCol_fst (n : Name) (col : Col) (p : Name × Col) : (setItemCol n col p).1 = p.1 := by
+  unfold setItemCol; split <;> rfl
+
+theorem dset_abs {h : List Col} {n : Name} {l : Loc} {col : Col} (hl : h[l]? = some col) :
+    ∀ {fs : List (Name × Loc)} {cols : List (Name × Col)},
+      List.Forall₂ (fun (a : Name × Loc) (b : Name × Col) => a.1 = b.1 ∧ h[a.2]? = some b.2) fs cols →
+      (fs.map (fun p => if p.1 == n then (n, l) else p)).map (fun p => (p.1, h[p.2]?)) =
+        ((cols.map (setItemCol n col)).map (fun e => (e.1, e.2.2))).map (fun p => (p.1, some p.2)) := by
+  intro fs cols hf
+  induction hf with
+  | nil => rfl
+  | @cons a b fs cols hab _ ih =>
+    obtain ⟨a1, a2⟩ := a
+    obtain ⟨b1, b2⟩ := b
+    simp only at hab
+    obtain ⟨rfl, h2⟩ := hab
+    simp only [List.map_cons, ih, List.cons.injEq, and_true]
+    unfold setItemCol
+    by_cases hk : (a1 == n) = true
+    · have : a1 = n := by simpa using hk
+      simp [hk, hl, this]
+    · simp [hk, h2]
+
+/-- `x[n] = arr` for an existing field, `arr` the array at location `l` -/
+theorem dset_refines {s : St} {ts : List Table} (g : GoodS s ts) {c : Nat} {cont : Cont} {t : Table}
+    (hcc : s.conts[c]? = some cont) (htc : ts[c]? = some t) (n : Name) {l : Loc} {col : Col} (hl : s.heap[l]? = some col)
+    (hn : dhas t.cols n = true) (hlen : col.vals.length = t.len) :
+    GoodS ⟨s.heap, s.conts.set c { cont with fields := dset cont.fields n l }⟩
+      (ts.set c ⟨t.len, (t.cols.map (setItemCol n col)).map fun e => (e.1, e.2.2)⟩) := by
+  have r := g.rep c cont t hcc htc
+  have hwf := C16.spec_wf_step' g.wf (.setItem c n col)
+  rw [stepT_setItem htc] at hwf
+  simp only [hn, ↓reduceIte, hlen, ne_eq, not_true_eq_false] at hwf
+  have hc : c < s.conts.length := (List.getElem?_eq_some_iff.mp hcc).1
+  have hc' : c < ts.length := (List.getElem?_eq_some_iff.mp htc).1
+  refine ⟨by simp [g.len], ?_, hwf⟩
+  intro i ci ti hci hti
+  by_cases hic : i = c
+  · subst hic
+    simp only [List.getElem?_set_self hc, Option.some.injEq] at hci
+    simp only [List.getElem?_set_self hc', Option.some.injEq] at hti
+    subst hci hti
+    refine ⟨?_, ?_, r.len, r.idx⟩
+    · have hd : dhas cont.fields n = true := by rw [dhas_fields r n]; exact hn
+      simp only [dset, hd, ↓reduceIte]
+      exact dset_abs hl r.forall₂
+    · simp only [Table.keys, List.map_map, Function.comp_def, setItemCol_fst]
+      exact r.names
+  · rw [List.getElem?_set_ne (Ne.symm hic)] at hci hti
+    exact g.rep i ci ti hci hti
+
+theorem stepT_new_single (ts : List Table) (m : Name) (col : Col) :
+    stepT ts (.new [(m, col)]) = (ts ++ [⟨col.vals.length, [(m, col)]⟩], .ok (.cont ts.length)) := by
+  unfold stepT
+  simp [tableOp, firstLen, pure_eq, Upd.table, freshAll]
+
+/-- **One step, locations possibly shared.**  For every operation that does not write through — all rebinding
+operations of the container and the three ways of handing in an array that already is a column — the heap layer
+still computes what the plain tables compute (the handed-in array taken by value), with equal results and errors. -/
+theorem stepX_refines {s : St} {ts : List Table} (g : GoodS s ts) (xop : XOp) (hx : xop.writesThrough = false) :
+    GoodS (stepX s xop).1 (stepTX ts xop).1 ∧ (stepX s xop).2 = (stepTX ts xop).2 := by
+  cases xop with
+  | base op =>
+    have hns : ¬ IsSetSel op := by
+      intro h; cases op <;> simp [IsSetSel] at h; simp [XOp.writesThrough] at hx
+    exact step_refines_rebind g op hns
+  | appendFieldFrom c n d m =>
+    simp only [stepX, stepTX]
+    cases hc : s.conts[c]? with
+    | none => simp only [getElem_none g hc]; exact ⟨g, trivial⟩
+    | some cont =>
+      obtain ⟨t, htc, r⟩ := getElem_pair g hc
+      cases hd : s.conts[d]? with
+      | none => simp only [htc, getElem_none g hd]; exact ⟨g, trivial⟩
+      | some src =>
+        obtain ⟨tsrc, htd, rs⟩ := getElem_pair g hd
+        simp only [htc, htd]
+        rcases rs.lookup_cases m with ⟨h1, h2⟩ | ⟨l, col, h1, h2, h3⟩
+        · simp only [h1, h2]; exact ⟨g, trivial⟩
+        · simp only [h1, h3]; exact bindNew_refines g hc htc n h2
+  | setItemFrom c n d m =>
+    simp only [stepX, stepTX]
+    cases hc : s.conts[c]? with
+    | none => simp only [getElem_none g hc]; exact ⟨g, trivial⟩
+    | some cont =>
+      obtain ⟨t, htc, r⟩ := getElem_pair g hc
+      cases hd : s.conts[d]? with
+      | none => simp only [htc, getElem_none g hd]; exact ⟨g, trivial⟩
+      | some src =>
+        obtain ⟨tsrc, htd, rs⟩ := getElem_pair g hd
+        simp only [htc, htd]
+        rcases rs.lookup_cases m with ⟨h1, h2⟩ | ⟨l, col, h1, h2, h3⟩
+        · simp only [h1, h2]; exact ⟨g, trivial⟩
+        · simp only [h1, h3, h2, dhas_fields r n]
+          rw [stepT_setItem htc]
+          cases hn : dhas t.cols n with
+          | false =>
+            simp only [Bool.false_eq_true, ↓reduceIte]
+            exact bindNew_refines g hc htc n h2
+          | true =>
+            simp only [↓reduceIte]
+            by_cases hlen : col.vals.length = t.len
+            · have hlen' : col.vals.length = cont.len := by rw [r.len]; exact hlen
+              rw [if_neg (not_not.mpr hlen'), if_neg (not_not.mpr hlen)]
+              exact ⟨dset_refines g hc htc n h2 hn hlen, rfl⟩
+            · have hlen' : ¬ col.vals.length = cont.len := by rw [r.len]; exact hlen
+              rw [if_pos hlen', if_pos hlen]; exact ⟨g, rfl⟩
+  | newShared d m =>
+    simp only [stepX, stepTX]
+    cases hd : s.conts[d]? with
+    | none => simp only [getElem_none g hd]; exact ⟨g, trivial⟩
+    | some src =>
+      obtain ⟨tsrc, htd, rs⟩ := getElem_pair g hd
+      simp only [htd]
+      rcases rs.lookup_cases m with ⟨h1, h2⟩ | ⟨l, col, h1, h2, h3⟩
+      · simp only [h1, h2]; exact ⟨g, trivial⟩
+      · simp only [h1, h3, h2, stepT_new_single, g.len]
+        refine ⟨⟨by simp [g.len], ?_, ?_⟩, trivial⟩
+        · intro i ci ti hci hti
+          by_cases hi : i < s.conts.length
+          · rw [List.getElem?_append_left hi] at hci
+            rw [List.getElem?_append_left (by rw [← g.len]; exact hi)] at hti
+            exact g.rep i ci ti hci hti
+          · have hi' : i = s.conts.length := by
+              have := (List.getElem?_eq_some_iff.mp hci).1
+              simp at this; omega
+            subst hi'
+            simp only [List.getElem?_concat_length, Option.some.injEq] at hci
+            rw [g.len, List.getElem?_concat_length, Option.some.injEq] at hti
+            subst hci hti
+            exact ⟨by simp [h2], rfl, rfl, Or.inl rfl⟩
+        · intro t' ht'
+          rcases List.mem_append.mp ht' with h1' | h1'
+          · exact g.wf t' h1'
+          · simp at h1'; rw [h1']
+            exact ⟨by simp [Table.keys], by simp⟩
+
+end StoreP
+
+/-- the plain-table reading of a history of extended operations -/
+def C16.runTX (ts : List Table) : List XOp → List Table
+  | [] => ts
+  | x :: r => C16.runTX (stepTX ts x).1 r
+
+/-- **One step with shared locations**: see `StoreP.stepX_refines`. -/
+theorem c16_refines_shared_step {s : St} {ts : List Table} (g : GoodS s ts) (xop : XOp) (hx : xop.writesThrough = false) :
+    GoodS (stepX s xop).1 (stepTX ts xop).1 ∧ (stepX s xop).2 = (stepTX ts xop).2 :=
+  stepX_refines g xop hx
+
+/-- **All histories without write-through**, arrays handed in that already are columns included: the heap layer —
+in which slots now do share locations — still computes the plain tables (every handed-in array taken by value); in
+particular sorting, appending and selecting keep the rows of every column aligned and leave every other table and every
+array the caller holds untouched (`c16_rebind_ops_frame`).  What is *not* true any more once `set_selection` writes
+through a shared location is stated by `c16_set_selection_writes_target_only`: every slot bound to it sees the write. -/
+theorem c16_refines_shared {s : St} {ts : List Table} (g : GoodS s ts) (xops : List XOp)
+    (hx : ∀ x ∈ xops, x.writesThrough = false) : GoodS (runX s xops) (C16.runTX ts xops) := by
+  induction xops generalizing s ts with
+  | nil => exact g
+  | cons x r ih =>
+    exact ih (stepX_refines g x (hx x List.mem_cons_self)).1 (fun y hy => hx y (List.mem_cons_of_mem _ hy))
+
+/-- reading any container after such a history = the plain table -/
+theorem c16_accessors_shared {s : St} {ts : List Table} (g : GoodS s ts) (i : Nat) : viewAt s i = getT ts i := by
+  rw [view_eqS g]
+
+example : GoodS ⟨[], []⟩ [] := c16_good_init.toGoodS
+
 /-! ### non-vacuity: a concrete history (constructor, indices, append, selection, in-place assignment, sort,
 a raising append) runs through both layers with equal results -/
 
